@@ -717,15 +717,38 @@ fn replace_window_case(seed: u64, idx: u64) -> CaseOut {
         return co;
     }
     let (pa, pb2) = (pb.clone(), pb.clone());
-    let a = std::thread::spawn(move || pa.enable_steady_tick(Duration::from_secs(7200)));
+    let returned = Arc::new(AtomicU64::new(0));
+    let (ra, rb) = (returned.clone(), returned.clone());
+    let a = std::thread::spawn(move || {
+        pa.enable_steady_tick(Duration::from_secs(7200));
+        ra.fetch_add(1, Ordering::SeqCst);
+    });
     std::thread::sleep(Duration::from_micros(settle_us));
-    let b = std::thread::spawn(move || match manual {
-        0 => pb2.tick(),
-        1 => pb2.inc(1),
-        _ => pb2.set_position(7),
+    let b = std::thread::spawn(move || {
+        match manual {
+            0 => pb2.tick(),
+            1 => pb2.inc(1),
+            _ => pb2.set_position(7),
+        }
+        rb.fetch_add(1, Ordering::SeqCst);
     });
     std::thread::sleep(Duration::from_micros(settle_us));
     term.open.store(true, SeqCst);
+    // bounded progress: with the terminal free again both calls return, whatever the tick intervals are
+    if !wait_until(|| returned.load(Ordering::SeqCst) == 2, Duration::from_secs(6)) {
+        co.verdict = Verdict::Violated(Box::new(Violation {
+            rule: "ticker-replace-blocks".into(),
+            features: feats,
+            detail: format!("replacing a 1 h steady ticker by a 2 h one (with {manual_name}() on another thread) did not return within 6 s after the terminal became free again: {} of 2 calls returned", returned.load(Ordering::SeqCst)),
+            witness: w,
+            replay,
+        }));
+        // the blocked threads are left behind (they hold their own handles)
+        drop(a);
+        drop(b);
+        std::mem::forget(pb);
+        return co;
+    }
     let _ = a.join();
     let _ = b.join();
     // the new ticker ticks once right away; give it a moment, then stop everything
